@@ -113,6 +113,7 @@ package rule
 //@ func rule.parseNum
 //@ pure
 //@ ensures[C06] isNil(result1) && !(len(num) > 0 && num[0] == '-') ==> strIsNum(num, 0, false) && result0 == strUval(num, 0)
+//@ ensures[C06] isNil(result1) && len(num) > 0 && num[0] == '-' ==> -2147483648 <= strIval(num, 0) && strIval(num, 0) <= 2147483647
 //@ ensures[C06] isNil(result1) && len(num) > 0 && num[0] == '-' ==> strIsNum(num, 0, true) && (strIval(num, 0) >= 0 ==> result0 == strIval(num, 0)) && (strIval(num, 0) < 0 ==> result0 == strIval(num, 0) + 4294967296)
 //
 // -F perm= / -p: the OR of the bits of the letters present, nothing but r, w, x, a.
